@@ -357,8 +357,8 @@ func oracleC17(f *sessionFam, w *World, res *Result) []Violation {
 		if len(sp.Raw) > 0 || sp.Transport != "polling" {
 			continue
 		}
-		if len(w.evs(a, "connection")) == 0 {
-			continue
+		if len(w.evs(a, "connection")) == 0 || len(w.evs(a, "c-handshake-aborted")) > 0 {
+			continue // no session, or the client abandoned the handshake request (its response was never sent)
 		}
 		ih := w.evs(a, "initial_headers")
 		if len(ih) != 1 {
